@@ -295,6 +295,8 @@ fn cachegrind_irefs(bin: &std::path::Path, corpus: &str, repeat: usize) -> Resul
                     let _ = child.wait();
                     return Err("valgrind run exceeded its 240 s budget".into());
                 }
+                // this phase makes no per-case progress: keep the stall monitor quiet
+                crate::engine::PROGRESS.fetch_add(1, std::sync::atomic::Ordering::Relaxed);
                 std::thread::sleep(std::time::Duration::from_millis(20));
             }
             Err(e) => return Err(e.to_string()),
@@ -373,9 +375,11 @@ fn cachegrind_phase(r: &Runner) {
     }
     let sizes: &[usize] = if r.quick() { &[1024, 8192] } else { &[1024, 8192, 32768] };
     let mut jobs = vec![];
-    for (bi, _) in bins.iter().enumerate() {
-        for f in 0..gen::N_FAMILIES {
-            for &n in sizes {
+    // small sizes first: a quadratic family is then reported from its cheap runs and the
+    // expensive ones are never started
+    for &n in sizes {
+        for (bi, _) in bins.iter().enumerate() {
+            for f in 0..gen::N_FAMILIES {
                 jobs.push((bi, f, n));
             }
         }
